@@ -354,7 +354,7 @@ theorem describe_setEntry (pre : Predef) (n : Node J V) (mod attr : String) (e :
 
 /-- **describe_stable.**  No request (change, do, read — anything that is not a configuration change) alters
 the report; hence it is the same after any history. -/
-theorem describe_stable (pre : Predef) (n : Node J V) (h : List (Env V × Request J)) :
+theorem describe_stable (pre : Predef) (n : Node J V) (h : List (Env V × Request J V)) :
     describe pre (finalNode pre n h) = describe pre n := by
   induction h generalizing n with
   | nil => rfl
@@ -478,7 +478,7 @@ theorem read_emits_validated (pre : Predef) (env : Env V) (n : Node J V) (spec :
           · cases h
 
 /-- every value update any request emits is the export of a validated value of the described parameter it names -/
-theorem step_emits_validated (pre : Predef) (env : Env V) (n : Node J V) (hwf : Node.WF pre n) (r : Request J)
+theorem step_emits_validated (pre : Predef) (env : Env V) (n : Node J V) (hwf : Node.WF pre n) (r : Request J V)
     (m w : String) (jv : J) (h : Msg.update m w jv ∈ (step pre env n r).emits) :
     ∃ mod p v, mod ∈ n ∧ mod.name = m ∧ Acc.param p ∈ mod.accs ∧ wireName pre mod (.param p) = some w ∧
       jv = p.dt.exportV v ∧ Validated p.dt v := by
@@ -503,8 +503,34 @@ theorem step_emits_validated (pre : Predef) (env : Env V) (n : Node J V) (hwf : 
     · cases he
     · injection hm with h1 h2 h3
       exact ⟨mod, p, v, hmem, h1.symm, hacc, h2 ▸ hw, h3, hval⟩
+  | assign m' attr raw =>
+    simp only [step] at h
+    unfold handleAssign at h
+    split at h
+    · cases h
+    · rename_i mod hf
+      split at h
+      · rename_i p hp
+        have hmem : mod ∈ n := by unfold findModule at hf; exact List.mem_of_find?_eq_some hf
+        have hacc : Acc.param p ∈ mod.accs := List.mem_of_find?_eq_some hp
+        split at h
+        · rename_i e _
+          exfalso
+          simp only at h
+          unfold readFailed at h
+          split at h
+          · cases h
+          · simp only at h
+            split at h
+            · simp only [List.mem_singleton] at h; cases h
+            · cases h
+        · rename_i v hv
+          obtain ⟨w', hw, hm⟩ := announce_mem pre mod p v _ h
+          injection hm with h1 h2 h3
+          exact ⟨mod, p, v, hmem, h1.symm, hacc, h2 ▸ hw, h3, Or.inr (Or.inr ⟨_, hv⟩)⟩
+      · cases h
 
-theorem describe_step (pre : Predef) (env : Env V) (n : Node J V) (r : Request J) :
+theorem describe_step (pre : Predef) (env : Env V) (n : Node J V) (r : Request J V) :
     describe pre (step pre env n r).node = describe pre n := by
   rcases step_node pre env n r with h | ⟨mod, attr, e, h⟩
   · rw [h]
@@ -515,7 +541,7 @@ emitted at any point of any history — by a `change` or by a `read` — can be 
 report (taken at any time: it is stable) gives for the name the update carries. -/
 theorem emits_importable_history (pre : Predef) (clientImports : J → J → Bool)
     (law : ∀ (dt : DtOps J V) (v : V), Validated dt v → clientImports dt.datainfo (dt.exportV v) = true)
-    (n : Node J V) (hwf : Node.WF pre n) (h : List (Env V × Request J))
+    (n : Node J V) (hwf : Node.WF pre n) (h : List (Env V × Request J V))
     (o : Outcome J V) (ho : o ∈ run pre n h) (m w : String) (jv : J) (hm : Msg.update m w jv ∈ o.emits) :
     ∃ ad, findDesc (describe pre n) m w = some ad ∧ clientImports ad.datainfo jv = true := by
   induction h generalizing n with
